@@ -12,8 +12,9 @@ from pydbml import PyDBML  # noqa: E402
 
 PID = 'C08'
 THEOREMS = ['PyDBML.C08.parse_outcome', 'PyDBML.C08.parseDoc_raises', 'PyDBML.C08.numberValue_raises_only_long',
-            'PyDBML.C08.buildDatabase_error', 'PyDBML.C08.build_wellLinked', 'PyDBML.C08.sql_total', 'PyDBML.C08.parsed_sql_total']
-MODULES = ['PyDBMLProofs.Hoare', 'PyDBMLProofs.Props.C08', 'PyDBMLProofs.Props.C08Render']
+            'PyDBML.C08.buildDatabase_error', 'PyDBML.C08.build_wellLinked', 'PyDBML.C08.sql_total', 'PyDBML.C08.parsed_sql_total', 'PyDBML.C08.dbml_total', 'PyDBML.C08.parsed_dbml_total_partial',
+            'PyDBML.C08.dbml_raises_name_with_newline', 'PyDBML.C08.dbml_raises_inline_composite']
+MODULES = ['PyDBMLProofs.Hoare', 'PyDBMLProofs.Props.C08', 'PyDBMLProofs.Props.C08Render', 'PyDBMLProofs.Props.C08Dbml']
 
 SPECIAL = [
     '', '\n', '   ', '// only a comment', '/* block */', '/* unterminated', '﻿', '﻿Table t {\n id int\n}',
@@ -239,8 +240,10 @@ def main(tier, seed):
                     '(numberValue_raises_only_long; known finding HugeInt) and nothing else; parseDoc_raises - proved through a program logic over every '
                     'grammar rule (Hoare.lean: Raises is closed under all combinators, no primitive raises); buildDatabase_error - every build error is a '
                     'library exception; parsed_sql_total - .sql of a parsed database evaluates (build_wellLinked: every stored position is in range; '
-                    'sql_total: the SQL renderer is total on well-linked databases). .dbml totality is NOT a theorem: it is false for the two known '
-                    'findings (composite inline reference, line break in a Project/TableGroup name) and is decided by correspondence + oracle. ' +
+                    'sql_total: the SQL renderer is total on well-linked databases). .dbml is NOT total - dbml_raises_name_with_newline and '
+                    'dbml_raises_inline_composite exhibit the two known findings in the model - and parsed_dbml_total_partial proves these are the '
+                    'only ways: .dbml of a parsed database evaluates whenever no Project/TableGroup name holds a line break and every inline '
+                    'reference has one referenced column. ' +
                     'Oracle: the class of any escaping exception must be a parse error, a pydbml exception or SyntaxError; every '
                     'rendering of an accepted database must not raise a non-pydbml exception. Correspondence: the Lean model makes '
                     'Python\'s partial operations explicit (min([]), tuple unpacking of split, int() limit, doublequote_string) and '
